@@ -277,3 +277,85 @@ func init() {
 		}
 	}
 }
+
+func init() {
+	extraDumps["layout"] = func(w *World, args []string) {
+		for _, k := range w.KindsL {
+			if len(args) > 1 && !strings.HasPrefix(k.Name, args[1]) {
+				continue
+			}
+			es := w.EncSummary(k)
+			if es == nil || k.Marshal == nil || !k.OwnMarshal {
+				continue
+			}
+			used := map[string]bool{}
+			kf := w.Facts(k)
+			fmt.Printf("%s:", k.Name)
+			seen := map[string]bool{}
+			for _, rc := range es.Recs {
+				off := w.applyNestedFacts(k, w.applyPremises(k, applyFacts(stripWraps(rc.Off, used), kf, used), used), used)
+				wd := w.applyNestedFacts(k, w.applyPremises(k, applyFacts(stripWraps(rc.W, used), kf, used), used), used)
+				s := fmt.Sprintf(" [%v,%v,%s%s]", off, wd, rc.Src, map[bool]string{true: "?" + rc.Guard, false: ""}[rc.Guard != ""])
+				if !seen[s] {
+					seen[s] = true
+					fmt.Print(s)
+				}
+			}
+			fmt.Println()
+		}
+	}
+}
+
+// layoutRecords returns the normalised write records of a kind: (offset, width, source, order, guard).
+func (w *World) layoutRecords(k *Kind) [][5]string {
+	es := w.EncSummary(k)
+	if es == nil || k.Marshal == nil || !k.OwnMarshal {
+		return nil
+	}
+	used := map[string]bool{}
+	kf := w.Facts(k)
+	norm := func(t *Term) *Term {
+		return w.applyNestedFacts(k, w.applyPremises(k, applyFacts(stripWraps(t, used), kf, used), used), used)
+	}
+	var out [][5]string
+	seen := map[string]bool{}
+	for _, rc := range es.Recs {
+		src := rc.Src
+		if rc.Kind == "packed" || strings.Contains(src, "opq(") {
+			src = "packed"
+		}
+		row := [5]string{norm(rc.Off).String(), norm(rc.W).String(), src, rc.Order, rc.Guard}
+		key := strings.Join(row[:], "|")
+		if !seen[key] {
+			seen[key] = true
+			out = append(out, row)
+		}
+	}
+	return out
+}
+
+func init() {
+	extraDumps["layoutjson"] = func(w *World, args []string) {
+		fmt.Println("{")
+		first := true
+		for _, k := range w.KindsL {
+			rows := w.layoutRecords(k)
+			if rows == nil {
+				continue
+			}
+			if !first {
+				fmt.Println(",")
+			}
+			first = false
+			fmt.Printf(" %q: {\"cite\": \"\", \"fields\": [", k.Name)
+			for i, r := range rows {
+				if i > 0 {
+					fmt.Print(", ")
+				}
+				fmt.Printf("[%q, %q, %q, %q, %q]", r[0], r[1], r[2], r[3], r[4])
+			}
+			fmt.Print("]}")
+		}
+		fmt.Println("\n}")
+	}
+}
